@@ -63,10 +63,20 @@ type dlItem struct {
 	Target  string `json:"target"`
 }
 
+type dlAttempt struct {
+	Event   string `json:"event"`
+	Attempt int    `json:"attempt"`
+	Status  int    `json:"status"`
+	Outcome string `json:"outcome"`
+	Reason  string `json:"reason,omitempty"`
+	HasErr  bool   `json:"has_err"`
+}
+
 type dlRec struct {
-	inner queue.Store
-	mu    sync.Mutex
-	calls []dlCall
+	inner    queue.Store
+	mu       sync.Mutex
+	calls    []dlCall
+	attempts []dlAttempt
 }
 
 func (r *dlRec) note(c dlCall, err error) {
@@ -94,6 +104,14 @@ func (s *dlPlain) Dequeue(req queue.DequeueRequest) (queue.DequeueResponse, erro
 		s.rec.note(c, nil)
 	}
 	return resp, err
+}
+func (s *dlPlain) RecordAttempt(a queue.DeliveryAttempt) error {
+	err := s.Store.RecordAttempt(a)
+	s.rec.mu.Lock()
+	s.rec.attempts = append(s.rec.attempts, dlAttempt{Event: a.EventID, Attempt: a.Attempt, Status: a.StatusCode, Outcome: string(a.Outcome),
+		Reason: a.DeadReason, HasErr: a.Error != ""})
+	s.rec.mu.Unlock()
+	return err
 }
 func (s *dlPlain) Ack(l string) error {
 	err := s.Store.Ack(l)
@@ -188,6 +206,7 @@ type dlFinal struct {
 
 type dlOut struct {
 	Calls   []dlCall  `json:"calls"`
+	Attempts []dlAttempt `json:"attempts"` // what the dispatcher handed to RecordAttempt, in order
 	Sends   []dlSend  `json:"sends"`
 	Final   []dlFinal `json:"final"`
 	Drained bool      `json:"drained"`
@@ -377,6 +396,7 @@ func dlRunCase(dir string, idx int, c dlCase) (out dlOut) {
 	}
 	rec.mu.Lock()
 	out.Calls = append([]dlCall(nil), rec.calls...)
+	out.Attempts = append([]dlAttempt(nil), rec.attempts...)
 	rec.mu.Unlock()
 	del.mu.Lock()
 	out.Sends = append([]dlSend(nil), del.sends...)
